@@ -224,7 +224,9 @@ TFault ==
                          THEN << Cond("library-static-data-written-while-threads-run", {"C20", "C13"} \cup GlobalWriteTags(Ev.op), FALSE) >>
                          ELSE IF Ev.what = "race"
                          THEN << Cond("data-race-reported", {"C20"}, FALSE) >>
-                         ELSE << Cond("call-crashed-or-hung", FaultTags(Ev.op) \cup (IF Ev.op = "threads" THEN {"C20"} ELSE {}), FALSE) >>),
+                         \* (C15: "if the allocator fails during any call, that call returns the memory status without crashing")
+                         ELSE << Cond("call-crashed-or-hung", FaultTags(Ev.op) \cup (IF Ev.op = "threads" THEN {"C20"} ELSE {})
+                                                              \cup (IF call # None /\ AllocFailed THEN {"C15"} ELSE {}), FALSE) >>),
                  FALSE)
 
 TBegin ==
@@ -257,7 +259,8 @@ RoundTripConds(r, exp) ==
           /\ (call.op = "DecodeX" => call.a.lang = issued[call.a.sreg].lang)
     THEN LET it == issued[call.a.sreg]
          IN IF call.a.coin = it.coin
-            THEN << Cond("own-phrase-decodes-to-the-same-seed", {"C01", "C05", "C13"},
+            \* (C17: "every phrase the library produces can be fed back to the decoder")
+            THEN << Cond("own-phrase-decodes-to-the-same-seed", {"C01", "C05", "C13", "C17"},
                          (~AllocFailed /\ Supported(it.seed.features, mask)) =>
                             \/ (r.st = StOK /\ exp.st = StOK /\ exp.seed = it.seed
                                    /\ (call.op = "Decode" => exp.lang = it.lang))
